@@ -36,6 +36,7 @@ def run(prog, chk):
     hooks_add_nothing_by_default(prog, chk)
     class_loops_run_to_the_end(prog, chk)
     unfiltered_output(prog, chk)
+    unconditional_emissions(prog, chk)
     from props import strops
     strops.check_for(prog, chk, "C20")  # A14.str-ops: how this property's strings are cut up is a reviewed, frozen inventory
 
@@ -81,6 +82,51 @@ def _true_only_after(body, place, after_blocks, depth=5):
             return False
         can_be_true = True
     return can_be_true
+
+
+# style / defs emissions that do not depend on a class being used (function -> number of sites, reason)
+UNCONDITIONAL_OK = {
+    "svgdx::themes::append_common_styles": (1, "the base rule for all shapes (stroke / fill defaults of the theme)"),
+    "svgdx::themes::append_arrow_styles": (2, "marker rule + marker defs, inside the `any arrow class is used` block (tested once for the group)"),
+    "svgdx::themes::append_dash_styles": (1, "the @keyframes of d-flow, inside the `any flow class` block"),
+    "svgdx::themes::pattern_defs": (2, "called only for a pattern class that is in use (guard at the call site)"),
+    "svgdx::themes::d_softshadow": (2, "called only when d-softshadow is in use (guard at the call site)"),
+    "svgdx::themes::d_hardshadow": (2, "called only when d-hardshadow is in use (guard at the call site)"),
+    "svgdx::themes::Theme::build": (4, "background, font and the theme's own base rules: document-wide settings, not class rules"),
+    "<svgdx::themes::FineTheme as svgdx::themes::Theme>::append_early_styles": (1, "theme-wide base rule"),
+    "<svgdx::themes::BoldTheme as svgdx::themes::Theme>::append_early_styles": (1, "theme-wide base rule"),
+    "<svgdx::themes::GlassTheme as svgdx::themes::Theme>::append_early_styles": (1, "theme-wide base rule"),
+}
+
+
+def unconditional_emissions(prog, chk):
+    """a style rule or <defs> entry is emitted under a test of the class it belongs to (has_class / has_element true
+    edge dominating the add_style / add_defs call); the emissions that are not are a reviewed list, and it does not grow:
+    a rule taken out from under its guard is written into every document, whether or not its class is used"""
+    from sa import discharge as D
+    from props.C01 import strip_closures
+    import collections
+
+    cnt = collections.Counter()
+    where = {}
+    n = 0
+    for b in prog.bodies.values():
+        if not b.path.startswith(("svgdx::themes::", "<svgdx::themes::")):
+            continue
+        for (bb, t, c) in b.call_sites(lambda c: c.path.split("::")[-1] in ("add_style", "add_defs") and "ThemeBuilder" in c.path):
+            n += 1
+            guarded = any(k == "call" and p[0] == "has_class" and tr for (k, p, tr) in D.dom_conditions(b, bb))
+            if not guarded:
+                f = strip_closures(b.path)
+                cnt[f] += 1
+                where.setdefault(f, b.where(bb, t.get("line")))
+    chk.floor("A13.unconditional-style", n, 30, "add_style / add_defs call in src/themes.rs")
+    for f in sorted(set(cnt) | set(UNCONDITIONAL_OK)):
+        allowed, why = UNCONDITIONAL_OK.get(f, (0, ""))
+        owners = prog.owners_of(f) if f not in UNCONDITIONAL_OK else set()
+        if owners:
+            allowed = sum(UNCONDITIONAL_OK.get(o, (0, ""))[0] for o in owners)
+        chk.ob(cnt[f] <= allowed, "A13.unconditional-style", f.replace("svgdx::", ""), where.get(f, "src/themes.rs"), f"{cnt[f]} emission(s) outside a class test (reviewed: {allowed}; {why})", f"{f.replace('svgdx::', '')} emits {cnt[f]} style / defs entries that are not under a has_class() test (reviewed: {allowed}): a rule taken out from under its guard is written into every document whether or not its class is used", by="table")
 
 
 def gating(prog, chk):
